@@ -1,6 +1,7 @@
 import PyrollModel.SolveGen
 import PyrollProofs.SolveReal
 import PyrollProofs.SolveBodyLemmas
+import PyrollProofs.SolveMarksLemmas
 
 /-!
 # C05 — solve is bounded, reports convergence honestly and is reproducible
@@ -42,7 +43,8 @@ theorem loop_shape_as_modelled : { loop_shape with cacheOverrides := [] } =
       cacheOverrides := [],
       subunits := ["if-subunits", "last:=in_profile", "for-subunits", "last:=u.solve(last)", "try", "raise-from"],
       subCatch := "Exception", subRaise := "RuntimeError",
-      marks := ["key:=id(instance)", "cycle:=key-in-marks", "local", "mark", "try", "finally:unmark-unless-cycle", "return"] } := rfl
+      marks := ["store:per-function", "key:=id(instance)", "cycle:=key-in-marks", "local", "mark", "try",
+                "finally:unmark-unless-cycle", "return"] } := rfl
 
 /-- `for i in range(1, max_iteration_count)`: the loop body runs at most `max_iteration_count − 1` times -/
 theorem budget_eq (m : ℕ) : budget m = m - 1 := by
@@ -785,7 +787,8 @@ example : unitStep [fun k : ℕ => (k + 1, .ok ()), fun k => (k + 1, .error .zer
 theorem marks_restored {β : Type} (key : ℕ) (body : List ℕ → Bool → List ℕ × Except Exc β)
     (hbody : ∀ m c, (body m c).1 = m) (marks : List ℕ) :
     (markedCall key body marks).1 = marks ∧
-    loop_shape.marks = ["key:=id(instance)", "cycle:=key-in-marks", "local", "mark", "try", "finally:unmark-unless-cycle", "return"] :=
+    loop_shape.marks = ["store:per-function", "key:=id(instance)", "cycle:=key-in-marks", "local", "mark", "try",
+                        "finally:unmark-unless-cycle", "return"] :=
   ⟨markedCall_restores key body hbody marks, rfl⟩
 
 /-- non-vacuity: a re-entrant call on the instance that is already marked, raising: the outer mark survives -/
@@ -936,5 +939,120 @@ theorem geometry_stale_without_clearing {G ρ γ : Type} (bR : G → ρ) (bP : G
 example : (SolveBody.usedGeometries (fun g : ℕ => g + 1) (fun (g : ℕ) (r : ℕ) => 10 * g + r)
     (SolveBody.program ["reevaluate-cached", "roll:reevaluate-cached", "roll:clear:_contour_line"])
     [⟨2, 2, 2, 2⟩, ⟨3, 3, 3, 3⟩, ⟨5, 5, 5, 5⟩] ⟨none, none, 0, 0⟩).map (·.1) = [21, 21, 21] := by decide
+
+/-! ### nested hook evaluations: marks are per (function, instance) and restored — a solve leaves nothing behind
+
+`SolveGen.readHook` / `runReads` = `PyrollModel/SolveMarks.lean` with the policy GENERATED from `HookFunction.__init__`
+(where the mark store lives), `HookFunction.__call__` (how `cycle` is computed, when the mark is discarded) and the
+function-wide flag properties of hooks.py.  A model implementation that takes the `cycle` argument may read the same hook
+on a NEIGHBOURING instance (unit, profile, roll), that one on the next, …: `SolveMarks.Impl.ask`. -/
+
+/-- what the translator read: one mark store per hook function object, `cycle = key in store`, `finally: if not cycle:
+    discard(key)` -/
+theorem marks_policy_as_read : marksPolicy = SolveMarks.good := by decide
+
+/-- **mark_is_per_function_and_instance** — the implementation of hook function `g` called on instance `k` is told `cycle`
+    exactly when THIS function is already running on THIS instance: a mark of another instance or of another function
+    never makes a call a cycle. -/
+theorem mark_is_per_function_and_instance (m : SolveMarks.Marks) (g k : ℕ) :
+    SolveMarks.flag marksPolicy m g k = true ↔ (g, k) ∈ m := by
+  rw [marks_policy_as_read, SolveMarks.flag_good]
+  simp
+
+/-- non-vacuity: function 0 running on instance 1 and function 1 running on instance 2 — function 0 called on instance 2 is
+    no cycle; called on instance 1 it is -/
+example : SolveMarks.flag marksPolicy [(0, 1), (1, 2)] 0 2 = false ∧ SolveMarks.flag marksPolicy [(0, 1), (1, 2)] 0 1 = true := by
+  decide
+
+/-- **nested_read_restores_marks** — for EVERY world (explicit values, implementations asking other instances for the same or
+    another hook, defaults), every nesting depth, every hook, instance and set of marks found: after the read the marks are
+    what they were before, whether it returned a value or raised.  (No hypothesis on the nested calls: they are calls of the
+    same `HookFunction.__call__`; `marks_restored` above is the one-level statement.) -/
+theorem nested_read_restores_marks (W : SolveMarks.World) (fuel g k : ℕ) (m : SolveMarks.Marks) :
+    (readHook W fuel g k m).1 = m := by
+  unfold readHook
+  rw [marks_policy_as_read]
+  exact SolveMarks.read_restores W fuel g k m
+
+/-- non-vacuity: instance 0 asks 1, 1 asks 0 (a genuine cycle, cut by the flag; 0 has a default, 1 has none): the read on 0
+    gives 2·293+1 and the read on 1 raises - no mark is left either way -/
+example :
+    let W : SolveMarks.World := { explicit := fun _ _ => none,
+                                  impl := fun _ k => if k = 0 then .ask 0 1 2 1 else .ask 0 0 1 0,
+                                  dflt := fun _ k => if k = 0 then some 293 else none }
+    readHook W 8 0 0 [] = ([], .val 587) ∧ readHook W 8 0 1 [] = ([], .attributeError) := by
+  decide
+
+/-- **nested_read_goes_through** — `d` instances in a row each of which lacks the value and asks its neighbour for the same
+    hook, the last neighbour holding `v`: the read on the first one yields `v` passed through the `d` implementations — a nested
+    call of the same hook function on ANOTHER instance is not a cycle, at any depth (`d = 1, 2, 3, …`), whatever other
+    marks are set — and restores the marks. -/
+theorem nested_read_goes_through (g : ℕ) (v a b : ℤ) (dflt : Option ℤ) (d k fuel : ℕ) (m : SolveMarks.Marks)
+    (hfuel : d < fuel) (hm : ∀ j, k ≤ j → j < k + d → (g, j) ∉ m) :
+    readHook (SolveMarks.chain g (k + d) v a b dflt) fuel g k m = (m, .val (SolveMarks.linIter a b d v)) := by
+  unfold readHook
+  rw [marks_policy_as_read]
+  exact SolveMarks.read_chain g v a b dflt d k fuel m hfuel hm
+
+/-- non-vacuity: three levels (instances 0, 1, 2 ask on, instance 3 holds 900), each adding 1 -/
+example : readHook (SolveMarks.chain 0 3 900 1 1 (some 293)) 5 0 0 [] = ([], .val 903) :=
+  nested_read_goes_through 0 900 1 1 (some 293) 3 0 5 [] (by omega) (by simp)
+
+/-- **solve_leaves_no_mark** — a history of top-level hook reads (what the loop bodies of any number of solves of any
+    sequences evaluate, each in the world of its moment) started without marks ends without marks, and every read answers
+    exactly as the same read made first thing in a new process. -/
+theorem solve_leaves_no_mark (fuel : ℕ) (qs : List (SolveMarks.World × ℕ × ℕ)) :
+    (runReads fuel qs []).1 = [] ∧
+    (runReads fuel qs []).2 = qs.map (fun q => (readHook q.1 fuel q.2.1 q.2.2 []).2) := by
+  unfold runReads readHook
+  rw [marks_policy_as_read]
+  exact SolveMarks.runAll_good fuel qs []
+
+/-- non-vacuity: the cycle world of above read on instance 0, on instance 1 (raises), then a three-level line: no mark left,
+    the answers of the single reads -/
+example :
+    let W : SolveMarks.World := { explicit := fun _ _ => none,
+                                  impl := fun _ k => if k = 0 then .ask 0 1 2 1 else .ask 0 0 1 0,
+                                  dflt := fun _ k => if k = 0 then some 293 else none }
+    runReads 8 [(W, 0, 0), (W, 0, 1), (SolveMarks.chain 0 3 900 1 1 none, 0, 0)] [] = ([], [.val 587, .attributeError, .val 903]) := by
+  decide
+
+/-- **fresh_after_other_identical** — what the hook reads of a solve yield does not depend on which other reads (solves of
+    other sequences, earlier solves of the same one) ran before in the process. -/
+theorem fresh_after_other_identical (fuel : ℕ) (ps qs : List (SolveMarks.World × ℕ × ℕ)) :
+    (runReads fuel (ps ++ qs) []).2 = (runReads fuel ps []).2 ++ (runReads fuel qs []).2 := by
+  unfold runReads
+  rw [marks_policy_as_read]
+  exact SolveMarks.runAll_append fuel ps qs
+
+/-- non-vacuity: a two-level line read first, then a one-level line: 900 both times, as the one-level line alone -/
+example : (runReads 5 [(SolveMarks.chain 0 2 900 1 0 (some 293), 0, 0), (SolveMarks.chain 0 1 900 1 0 (some 293), 0, 0)] []).2
+    = [.val 900, .val 900] := by
+  have h := fresh_after_other_identical 5 [(SolveMarks.chain 0 2 900 1 0 (some 293), 0, 0)]
+    [(SolveMarks.chain 0 1 900 1 0 (some 293), 0, 0)]
+  have h2 : (runReads 5 [(SolveMarks.chain 0 2 900 1 0 (some 293), 0, 0)] []).2 ++
+      (runReads 5 [(SolveMarks.chain 0 1 900 1 0 (some 293), 0, 0)] []).2 = [.val 900, .val 900] := by decide
+  exact h.trans h2
+
+/-- the function-wide flag (`cycle` = "the function runs on SOME instance") is NOT reproducible: the two-level line leaves the
+    mark of the inner instance behind (the nested call is taken for a cycle and a cycled call does not un-mark), after which
+    the one-level line reads the default 293 instead of 900 (and leaves a second mark) — the same read gives 900 when made first. -/
+theorem function_wide_flag_not_reproducible :
+    let P : SolveMarks.Policy := { perFunction := true, perInstance := false, unmark := .unlessCycle }
+    let long := SolveMarks.chain 0 2 900 1 0 (some 293)
+    let short := SolveMarks.chain 0 1 900 1 0 (some 293)
+    SolveMarks.runAll P 5 [(long, 0, 0), (short, 0, 0)] [] = ([(0, 0), (0, 1)], [.val 293, .val 293]) ∧
+    SolveMarks.runAll P 5 [(short, 0, 0)] [] = ([], [.val 900]) := by
+  decide
+
+/-- … and so is one mark store shared by all hook functions: hook 0 on instance 0 asks hook 1 on the same instance, whose
+    implementation is told `cycle` although it is not running: `AttributeError` where per-function marks give 7 -/
+theorem shared_store_changes_results :
+    let W : SolveMarks.World := { explicit := fun _ _ => none,
+                                  impl := fun g _ => if g = 0 then .ask 1 0 1 0 else .value 7,
+                                  dflt := fun _ _ => none }
+    (SolveMarks.read { perFunction := false, perInstance := true, unmark := .unlessCycle } W 5 0 0 []).2 = .attributeError ∧
+    (readHook W 5 0 0 []).2 = .val 7 := by
+  decide
 
 end C05
